@@ -18,6 +18,7 @@ void harness(void) {
   for (int i = 0; i < 8; i++) if (i < sz) raw |= (uint64_t)gm_dm[addr_off + i] << (8 * i);
   REACH("explored");
   load(ty);
+  REACH("returns");
   int64_t want = spec_conv(cg_st(ty), (int64_t)raw);
   if (ty->kind == TY_BOOL) ASSUME(raw <= 1);       /* a _Bool object only ever holds 0 or 1 */
   OBLIGE(!m.unknown && !m.bad, "C01.4 load text understood, access inside the object");
@@ -29,6 +30,7 @@ void harness(void) {
   m.r[RAX] = sz == 8 ? v : ((garbage << 32) | (uint32_t)v);
   REACH("explored");
   store(ty);
+  REACH("returns");
   OBLIGE(!m.unknown && !m.bad, "C01.4 store text understood, access inside the object");
   OBLIGE(m.sp == 0 && depth == 0, "C01.4 store pops the address");
   _Bool inside = (uint64_t)probe >= addr_off && (uint64_t)probe < addr_off + sz;
@@ -40,6 +42,7 @@ void harness(void) {
   m.r[RAX] = sz == 8 ? v : ((garbage << 32) | (uint32_t)v);
   REACH("explored");
   cmp_zero(ty);
+  REACH("returns");
   OBLIGE(!m.unknown && !m.bad && m.flags_valid, "C01.4 cmp_zero text understood");
   OBLIGE(m.zf == (v == 0), "C01.4 ZF set iff the value of the operand's type is zero");
 #endif
